@@ -114,6 +114,51 @@ class RefWorld:
         return lines, idx
 
 
+def ns_of(module, clsname):
+    return f"{module}.{clsname}"
+
+
+def build_world(info):
+    """reference reading of every bundled class: `info` = modinfo.load_all(P)"""
+    world = RefWorld()
+    FIRST_MATCH.update({"rfc3986.Rule": ["host"], "rfc3987.Rule": "ALL"})
+    classes = []
+    for module, recs in info.items():
+        for rec in recs:
+            cls = rec["cls"]
+            ns = ns_of(module, cls.__name__)
+            imports = [(name, (ns_of(sm, sc), sname.lower())) for name, sm, sname, sc in rec["imports"]]
+            world.add_module(ns, rec["grammar"], imports, display_names={})
+            classes.append((ns, cls))
+    return world, classes
+
+
+def lean_expr(ast, idx, cid, top_first=False):
+    """the reference AST as a Lean `Abnf.Expr` term"""
+    k = ast[0]
+    if k == "lit":
+        return f"(.lit [{', '.join(str(ord(c)) for c in ast[1])}] {'true' if ast[2] else 'false'})"
+    if k == "range":
+        return f"(.range {ast[1]} {ast[2]})"
+    if k == "prose":
+        return ".prose"
+    if k == "alt":
+        first = "true" if (ast[2] or top_first) else "false"
+        return f"(.alt [{', '.join(lean_expr(x, idx, cid) for x in ast[1])}] {first})"
+    if k == "cat":
+        return f"(.cat [{', '.join(lean_expr(x, idx, cid) for x in ast[1])}])"
+    if k == "rep":
+        cid[0] += 1
+        mx = "none" if ast[2] is None else f"(some {ast[2]})"
+        return f"(.rep {cid[0]} {ast[1]} {mx} {lean_expr(ast[3], idx, cid)})"
+    if k == "opt":
+        cid[0] += 1
+        return f"(.rep {cid[0]} 0 (some 1) {lean_expr(ast[1], idx, cid)})"
+    if k == "refkey":
+        return f"(.ref {idx.get(ast[1], 10 ** 6)})"
+    raise ValueError(ast)
+
+
 def refs_of(ast):
     k = ast[0]
     if k == "refkey":
